@@ -317,10 +317,13 @@ def check_cipher(ck, mod, f, label, rulemap):
         return 1
     heads = data_loops(f, ps)
     LI = {}
+    idx_style = False
     for h_ in heads:
         pt_, in_ = hd_syms(f, h_)
-        if len(pt_) > 2 or len(in_) != 1 or not pt_:
-            raise Broken("%s: expected one or two pointer cursors and one remaining length carried by the data loop (found %d pointer, %d integer values): index-based or otherwise "
+        if not pt_ and len(in_) == 1 and len(heads) == 1:
+            idx_style = True          # index-based: m[posn + j] / c[posn + j] with one loop-carried index, the buffers addressed from their start
+        elif len(pt_) > 2 or len(in_) != 1 or not pt_:
+            raise Broken("%s: expected one or two pointer cursors and one remaining length (or one index) carried by the data loop (found %d pointer, %d integer values): "
                          "unrecognised loop shape" % (f.name, len(pt_), len(in_)))
         LI[h_] = {"ptrs": pt_, "ints": in_, "rem": ("hd", in_[0].id), "in": None, "out": None}
     hdr = heads[0]
@@ -392,6 +395,12 @@ def check_cipher(ck, mod, f, label, rulemap):
             inits = {I.id: p.env.get(("init", I.id)) for I in ptrs + ints}
             want_n = Lf.s(A["mlen"]) if enc else Lf({A["clen"]: 1, 1: -8})
             ini_n = inits[ints[0].id]
+            if idx_style:
+                if is_word(ini_n) or ini_n.const() is None:
+                    raise Broken("%s: the data loop carries one integer that does not start at a constant (%s): neither a remaining length nor an index: unrecognised shape" % (f.name, ini_n))
+                c.ob(ini_n.const() == 0, "ADVANCE", "cursor-init", "the loop index starts at 0 (the buffers are addressed from their start)", "the loop index starts at %s: the first bytes are skipped" % ini_n)
+                n += 3
+                continue
             if not is_word(ini_n) and any(isinstance(s_, tuple) and s_[0] in ("quo", "rem", "trunc", "mod") for s_ in ini_n):
                 raise Broken("%s: the data loop counts blocks with a derived counter (%s) instead of the remaining length: loop shape not supported by the lock-step rule" % (f.name, ini_n))
             okc = set(repr(inits[I.id]) for I in ptrs) == {repr(Lf.s(A["m"])), repr(Lf.s(A["c"]))} and inits[ints[0].id] == want_n
@@ -438,9 +447,15 @@ def check_cipher(ck, mod, f, label, rulemap):
         if LI[h2]["in"] is None or LI[h2]["out"] is None:
             raise Broken("%s: cursors of the second data loop cannot be related to the first: unrecognised shape" % f.name)
     expanded = []
+    total = Lf.s(A["mlen"]) if enc else Lf({A["clen"]: 1, 1: -8})
     for p in ps:
         h_ = p.blocks[0] if p.blocks else None
-        if p.end[0] == "ret" and h_ in LI and p.eqs.get(LI[h_]["rem"]) is None:
+        if idx_style and p.end[0] == "ret" and h_ in LI:
+            dv = [d_ for d_ in p.divs.values() if d_[3] == 4 and d_[2] == total]
+            if len(dv) != 1:
+                raise Broken("%s: index-based data loop without a division of the data length by 4 (full words / left-over bytes): unrecognised shape" % f.name)
+            expanded += [(p, r_) for r_ in residue_cases(ex, p, dv[0][1], f.name)]
+        elif p.end[0] == "ret" and h_ in LI and p.eqs.get(LI[h_]["rem"]) is None:
             expanded += [(p, r_) for r_ in residue_cases(ex, p, LI[h_]["rem"], f.name)]
         else:
             expanded.append((p, None))
@@ -457,7 +472,42 @@ def check_cipher(ck, mod, f, label, rulemap):
         s_in = static_in and h0 == hdr
         s_out = static_out and h0 == hdr
         P = [e for e in ev if e[0] == "P"]
-        if p.end[0] == "backedge":
+        if idx_style:
+            # cursors of this path: the one symbolic offset at which the input / output buffer is accessed
+            X = rem                                     # the loop index
+            dv = [d_ for d_ in p.divs.values() if d_[3] == 4 and d_[2] == total]
+            tagso = repr(Lf.s(A["mlen"])) if enc else irx.symsplit(Lf({A["clen"]: 1, 1: -8}))[0]
+            ins_s = {e_[2] for e_ in p.events if e_[0] == "in-sym" and e_[1] == A[in_name] and not (not enc and e_[2] == tagso and e_[3] < 0)}
+            outs_s = {e_[2] for e_ in p.events if e_[0] == "out-sym" and e_[1] == A[out_name] and not (enc and e_[2] == tagso)}
+            if len(ins_s) > 1 or len(outs_s) > 1 or len(dv) > 1:
+                raise Broken("%s: a path accesses the buffers at several unrelated symbolic offsets (%s / %s): unrecognised shape" % (f.name, sorted(ins_s), sorted(outs_s)))
+            in_cur = ("idx", A[in_name], next(iter(ins_s))) if ins_s else ("idx", A[in_name], None)
+            out_cur = ("idx", A[out_name], next(iter(outs_s))) if outs_s else ("idx", A[out_name], None)
+            if p.end[0] == "backedge":
+                bn = p.env.get(("back", ints[0].id))
+                step = bn.add(Lf.s(X), -1).const() if bn is not None and not is_word(bn) else None
+                if step not in (1, 4) or len(dv) != 1:
+                    raise Broken("%s: index-based data loop whose index does not advance by one word per iteration (step %s) or without a division of the length by 4: unrecognised shape" % (f.name, step))
+                qs = dv[0][0]
+                a_ = 4 // step                               # bytes per index unit
+                r, name = 4, "block"
+                want_so = repr(Lf({X: a_}))
+                okg = any(cc[0] == "ult" and cc[2] and cc[1] == (Lf({X: 1, qs: -4}) if step == 4 else Lf({X: 1, qs: -1})) for cc in p.conds)
+                c.ob(okg, "ADVANCE", "guard", "a word is processed only while the index is below the number of full words", "loop guard is not 'index < full words' (conditions %s)" % [(x_[0], repr(x_[1]), x_[2]) for x_ in p.conds][:3])
+                c.ob(in_cur[2] == want_so and out_cur[2] == want_so, "ADVANCE", "advance", "input and output are both accessed at the loop index, which advances by one word per iteration",
+                     "an iteration reads at offset %s and writes at offset %s with the index at %s: lock-step broken" % (in_cur[2], out_cur[2], want_so))
+                n += 2
+            else:
+                r = rforced
+                if r is None or len(dv) != 1:
+                    raise Broken("%s: a path leaves the index-based data loop without a determined number of left-over bytes: unrecognised shape" % f.name)
+                name = "tail%d" % r
+                if r:
+                    want_so = repr(Lf({dv[0][0]: 4}))
+                    c.ob(in_cur[2] == want_so and out_cur[2] == want_so, "ADVANCE", "%s-position" % name, "the left-over bytes are read and written right after the full words",
+                         "the left-over bytes are read at offset %s and written at offset %s, expected %s for both" % (in_cur[2], out_cur[2], want_so))
+                    n += 1
+        elif p.end[0] == "backedge":
             if p.end[1] != h0:
                 raise Broken("%s: nested data loops: unrecognised shape" % f.name)
             bi = p.env.get(("back", in_cur[1])) if not s_in else Lf.s(in_cur)
@@ -476,6 +526,9 @@ def check_cipher(ck, mod, f, label, rulemap):
             if r is None:
                 raise Broken("%s: a path leaves the data loop with the remaining length not determined: unrecognised shape" % f.name)
             name = "tail%d" % r
+        if rforced is not None and idx_style:
+            # make the chosen residue visible to the term comparison (shift amounts, masks and helper loops depend on it)
+            pass
         seen.add(r if p.end[0] != "backedge" else ("iter", h0))
         outs = mode.outs_of(p)
         # a store that writes back the value the location already holds (x ^= 0 ...) changes nothing the round trip or the
@@ -575,7 +628,8 @@ def check_cipher(ck, mod, f, label, rulemap):
                     # only stores at symbolic offsets of c are the 8 tag bytes
                     so = repr(Lf.s(A["mlen"]))
                     symw = [(e_[2], e_[3]) for e_ in p.events if e_[0] == "out-sym"]
-                    c.ob(wr == set(range(r)) and all(k[0] == out_cur for k in outs) and sorted(set(symw)) == [(so, b_) for b_ in range(8)]
+                    tagcur = ("idx", A["c"], so)
+                    c.ob(wr == set(range(r)) and all(k[0] in (out_cur, tagcur) for k in outs) and sorted(set(symw) - {(out_cur[2], j_) for j_ in range(r) if out_cur[0] == "idx"}) == [(so, b_) for b_ in range(8)]
                          and all(e_[1] == A["c"] for e_ in p.events if e_[0] == "out-sym"), "OUTRANGE", "%s-writes" % name,
                          "exactly %d ciphertext byte(s) at the cursor and the 8 tag bytes at c + mlen are written" % r, "the tail writes cursor offsets %s and symbolic offsets %s" % (sorted(wr), sorted(set(symw))[:10]))
                     for b in range(8):
@@ -641,7 +695,8 @@ def check_siv_nonce2(c, ex, p, f, A, enc, ev, ks, klen):
     else:
         s2 = su[0] if su else None
         off = repr(lenlf)
-        tagbytes = [gf2.sym_word(("mem", A["c"], (off, k)), 8) for k in range(8)]
+        so_, k0_ = irx.symsplit(lenlf)
+        tagbytes = [gf2.sym_word(("mem", A["c"], (so_, k0_ + k)), 8) for k in range(8)]
     want = []
     for k in range(4):
         want.extend(mode.inbyte(A["npub"], k))
